@@ -185,7 +185,57 @@ def find_product(fn: ast.AST, em: EM):
 
 
 # ---------------------------------------------------------------------------
+def table_entries(ctx: Ctx, rule="R1.2"):
+    """Every entry written into the frame table is the frame builder's own result (axes, origin): projection and
+    restoration then refer to the origin the axes were built about - the anchor atom itself."""
+    em = EM(ctx)
+    fbn = em.fb.name
+    n = 0
+    for g in dict.fromkeys([em.recompute, em.recompute_general] + [f_ for f_ in em.call_path()]):
+        for s_ in walk_no_nested(g.node):
+            if not (isinstance(s_, ast.Assign) and isinstance(s_.targets[0], ast.Subscript) and attr_chain(s_.targets[0].value) == em.frames_attr):
+                continue
+            n += 1
+            v = _resolve_local(g.node, s_.value)
+            if isinstance(v, ast.Call) and call_name(v) == fbn:
+                ctx.ob(rule, g, s_, True, "the entry stored is the frame builder's result (axes and the origin they were built about)", node=s_)
+                continue
+            if isinstance(v, ast.Tuple) and len(v.elts) == 2:
+                org = _resolve_local(g.node, v.elts[em.origin_slot])
+                axes = _resolve_local(g.node, v.elts[em.frame_slot])
+                org_txt = norm(org)
+
+                def from_builder(e_, slot):
+                    # <builder result>[slot]
+                    if isinstance(e_, ast.Subscript) and const_int(e_.slice) == slot:
+                        b_ = _resolve_local(g.node, e_.value)
+                        return isinstance(b_, ast.Call) and call_name(b_) == fbn
+                    return False
+                # tuple-unpacked builder result: `axes, origin = builder(...)`
+                unpack = [a_ for a_ in walk_no_nested(g.node) if isinstance(a_, ast.Assign) and isinstance(a_.targets[0], ast.Tuple)
+                          and isinstance(a_.value, ast.Call) and call_name(a_.value) == fbn and len(a_.targets[0].elts) == 2]
+                names = {norm(a_.targets[0].elts[em.origin_slot]): "origin" for a_ in unpack}
+                names.update({norm(a_.targets[0].elts[em.frame_slot]): "axes" for a_ in unpack})
+                org_ok = from_builder(org, em.origin_slot) or names.get(norm(v.elts[em.origin_slot])) == "origin"
+                other_point = any(isinstance(x_, ast.Call) and call_name(x_) in ("mean", "average", "median") for x_ in ast.walk(org)) \
+                    or "geometric_center" in org_txt or "center" in org_txt.lower() and not org_ok
+                if org_ok:
+                    ctx.ob(rule, g, s_, True, "the entry stored pairs the builder's axes with the builder's origin", node=s_)
+                elif other_point:
+                    ctx.ob(rule, g, s_, False, "the origin stored with the axes is the origin the frame builder used (the anchor atom's "
+                           "position) -- here it is `%s`: mapped atoms are then placed relative to another point and their distance to the "
+                           "anchor is no longer scaled by s" % org_txt[:80], node=s_)
+                else:
+                    ctx.ob(rule, g, s_, True, "the origin stored with the axes is not in a recognised form; not decided on this tree",
+                           undecided=True, node=s_)
+                continue
+            ctx.ob(rule, g, s_, True, "the value stored into the frame table is not in a recognised form; not decided on this tree",
+                   undecided=True, node=s_)
+    return n
+
+
 def r1_2(ctx: Ctx, rule="R1.2"):
+    table_entries(ctx, rule)
     em = EM(ctx)
     pj = find_product(em.project.node, em)
     rs = find_product(em.restore_point.node, em)
